@@ -20,7 +20,7 @@ func init() {
 	core.Register(&core.Prop{
 		ID:    "C15",
 		Level: "exploration",
-		Rule: "EXHAUSTIVE arrays of length 0..4 over {1,2,3,nil}, {1.5,2.0,2.5,nil}, {\"a\",\"B\",\"c\",nil} and the mixed alphabet {1,2.5,\"a\",nil} (1364 arrays) x every array filter (sort, sort: key, reverse, uniq, compact, concat, first, last, size, join, map) x Go representations ([]any with spare capacity, typed slice, fixed array, range literal where the array is one, Drop of array, yaml.MapSlice, generic slices whose nils are typed nil pointers); arrays of maps with present/absent/nil keys; PRNG arrays of length 5..8 and filter chains of length 2..4. Every case renders the filter result element by element AND the receiver again afterwards; the Go binding is compared with an identical fresh realisation after the render. Non-trivial = array length >= 2; distinct = distinct (filter, array, representation).",
+		Rule: "EXHAUSTIVE arrays of length 0..4 over {1,2,3,nil}, {1.5,2.0,2.5,nil}, {\"a\",\"B\",\"c\",nil} and the mixed alphabet {1,2.5,\"a\",nil} (1364 arrays) x every array filter (sort, sort: key, reverse, uniq, compact, concat, first, last, size, join, map) x Go representations ([]any with spare capacity, typed slice, fixed array, range literal where the array is one, Drop of array, yaml.MapSlice, generic slices whose nils are typed nil pointers, generic slices whose elements are Drops of the values); arrays of maps with present/absent/nil keys; PRNG arrays of length 5..8 and filter chains of length 2..4. Every case renders the filter result element by element AND the receiver again afterwards; the Go binding is compared with an identical fresh realisation after the render. Non-trivial = array length >= 2; distinct = distinct (filter, array, representation).",
 		Exhaustive: func(string) bool { return true },
 		Assumptions: []string{
 			"where nil and values of different kinds stand after sort is not asserted (only that no element stands before a smaller one); sort_natural is not asserted beyond 'permutation, input unchanged, no panic'",
@@ -130,6 +130,22 @@ func c15Rep(kind int, a []gen.V, r *core.Rand) (any, bool) {
 				out[i] = (*gen.DataStruct)(nil)
 			default:
 				out[i] = gen.Canon(e)
+			}
+		}
+		return out, true
+	case 7: // generic slice whose elements are Drops of the values (a Drop nested in an array is its value, also as filter input)
+		if len(a) == 0 {
+			return nil, false
+		}
+		out := make([]any, len(a), len(a)+2)
+		for i, e := range a {
+			switch {
+			case e.K == gen.KNil:
+				out[i] = nil
+			case i%2 == 0:
+				out[i] = gen.DropV{X: gen.Canon(e)}
+			default:
+				out[i] = &gen.DropP{X: gen.Canon(e)}
 			}
 		}
 		return out, true
@@ -704,7 +720,7 @@ func runC15(c *core.Ctx) {
 			for j, s := range seq {
 				a[j] = alpha[s]
 			}
-			for kind := 0; kind < 7; kind++ {
+			for kind := 0; kind < 8; kind++ {
 				idx++
 				if !c.Mine(idx) {
 					continue
